@@ -48,7 +48,7 @@ PROPERTY = "C18"
 LEVEL = "exploration"
 NEEDS_RUST = True
 RULE = (
-    "Hypothesis scenarios (quick 16 shards x 60, thorough 16 x 2500; even shards Rust extensions, odd shards pure-Python "
+    "Hypothesis scenarios (quick 16 shards x 120, thorough 16 x 2500; even shards Rust extensions, odd shards pure-Python "
     "twins): 5-9 path components drawn from a flavour pool (plain incl. the a/a.b/a-/a0/ab sort-collision family and a "
     "File/file case pair; special = spaces, quotes, newline, tab, backslash, glob and shell characters, control bytes, "
     "UTF-8 incl. NFD; non-UTF-8 bytes), 2-3 of them also used as directory names (so file/directory collisions at one "
@@ -861,7 +861,7 @@ class Runner:
                 wt.unstage([os.fsdecode(p) for p in named])
             elif name == "rm_cached":
                 named = list(op[1])
-                gitargs = ["rm", "-q", "--cached", "--"] + [os.fsdecode(p) for p in named]
+                gitargs = ["rm", "-q", "-f", "--cached", "--"] + [os.fsdecode(p) for p in named]
                 porcelain.remove(self.repo, paths=list(named), cached=True)
             elif name == "reset_mixed":
                 gitargs = ["reset", "-q"]
@@ -1456,6 +1456,6 @@ def run(ctx):
     ctx.note("git_version", cgit.version())
     st = os.stat(ctx.scratch.path)
     ctx.note("scratch_fs_has_subsecond_timestamps", bool(st.st_mtime_ns % 1_000_000_000))
-    per = ctx.scale(60, 2500)
+    per = ctx.scale(120, 2500)
     maxops = ctx.scale(12, 16)
     ctx.parallel(_part, [(per, maxops)] * 16)
